@@ -276,6 +276,28 @@ func c04(w *core.World, r *core.Report) {
 		}
 	}
 
+	// ---- RULING-NOT-DELETED
+	r.Rule("RULING-NOT-DELETED", 1, "the value the validators judge is one that remains: in LeafVariants.GetHighestPrecedence every non-nil entry returned on the onlyNewOrUpdated==false outcome is selected under a test of LeafEntry.GetDeleteFlag() (the flag is in the backward slice, data + control, of the returned value). Otherwise deleting the ruling intent lets the never-validated value of the intent that takes over through.")
+	if ghp := w.Func("pkg/tree", "LeafVariants", "GetHighestPrecedence"); ghp != nil {
+		only := core.Param(ghp, "onlyNewOrUpdated")
+		n := 0
+		for i, ret := range core.Returns(ghp) {
+			rv := core.ReturnValues(ret)
+			if len(rv) != 1 || core.IsNilConst(rv[0]) || only == nil || !core.GuardedByValue(ret, only, false) {
+				continue
+			}
+			if core.GuardedByValue(ret, only, true) {
+				continue // guarded by both outcomes of the same parameter: unreachable
+			}
+			n++
+			sl := core.BackwardSlice(ghp, []ssa.Value{rv[0]}, nil)
+			r.Check(sl.HasCallTo("tree.LeafEntry.GetDeleteFlag"), "RULING-NOT-DELETED", core.Site(ghp, "return#%d for onlyNewOrUpdated=false skips deleted entries", i), w.InstrPos(ret), "an entry marked for deletion can be returned as the ruling value")
+		}
+		if n == 0 {
+			r.Undecided("RULING-NOT-DELETED", core.Site(ghp, "return for onlyNewOrUpdated=false"), w.Pos(ghp.Pos()), "no return is guarded by onlyNewOrUpdated == false")
+		}
+	}
+
 	// ---- INDEPENDENCE / NO-LOSSY-BOUND
 	r.Rule("INDEPENDENCE", 3, "in validateLeafListMinMaxAttributes the max-elements verdict is not control-dependent on min-elements (and vice versa), and no lossy conversion is applied to either bound (shared rule C12.LOSSY).")
 	if f := w.Func("pkg/tree", "sharedEntryAttributes", "validateLeafListMinMaxAttributes"); f != nil {
